@@ -1035,21 +1035,32 @@ def cnat(n):
     return f"{n}%nat"
 
 
-def coq_tf(case):
+def coq_dict(case):
+    """the frame as the dictionary the code holds: feat_dict in insertion order, ignored stypes included"""
     def feat(f, pr):
-        if not f:
-            return "None"
-        return (f"(Some {{| f_names := {cnat(len(f['names']))}; f_width := {cnat(len(f['names']))}; "
-                f"f_rows := {C.clist(f['rows'], lambda r: C.clist(r, pr))} |}})")
-    e = case["emb"]
-    if e:
-        es = (f"(Some {{| e_names := {cnat(len(e['names']))}; e_dims := {C.clist(e['dims'], cnat)}; "
-              f"e_rows := {C.clist(e['rows'], lambda r: C.clist(r, lambda c: C.clist(c, cval)))} |}})")
-    else:
-        es = "None"
+        return (f"{{| f_names := {cnat(len(f['names']))}; f_width := {cnat(len(f['names']))}; "
+                f"f_rows := {C.clist(f['rows'], lambda r: C.clist(r, pr))} |}}")
+    ents = []
+    for key in case["order"]:
+        if key == "categorical":
+            ents.append(f"(st_categorical, PCat {feat(case['cat'], C.cz)})")
+        elif key == "numerical":
+            ents.append(f"(st_numerical, PNum {feat(case['num'], cval)})")
+        elif key == "embedding":
+            e = case["emb"]
+            ents.append(f"(st_embedding, PEmb {{| e_names := {cnat(len(e['names']))}; e_dims := {C.clist(e['dims'], cnat)}; "
+                        f"e_rows := {C.clist(e['rows'], lambda r: C.clist(r, lambda c: C.clist(c, cval)))} |}})")
+        else:
+            assert key in IGNORED, key
+            ents.append(f"(st_{key}, POther)")
     y = "None" if case["y"] is None else "(Some " + C.clist(case["y"]["v"], cval) + ")"
-    return (f"{{| tf_cat := {feat(case['cat'], C.cz)}; tf_num := {feat(case['num'], cval)}; "
-            f"tf_emb := {es}; tf_y := {y} |}}")
+    return "[" + "; ".join(ents) + "]", y
+
+
+def coq_with_tf(case, body):
+    """bind `tf` to the model's view of the dictionary (frame_of_dict) and evaluate `body`"""
+    d, y = coq_dict(case)
+    return f"(match frame_of_dict {d} {y} with Some tf => {body} | None => false end)"
 
 
 def coq_block(rows):
@@ -1087,10 +1098,10 @@ def coq_term(case, obs):
         return None
     kind = case["kind"]
     if kind == "adapter":
-        return f"(let tf := {coq_tf(case)} in " + " && ".join(coq_lib_term(lib, obs[lib]) for lib in LIBS) + ")"
+        return coq_with_tf(case, " && ".join(coq_lib_term(lib, obs[lib]) for lib in LIBS))
     if kind == "history":
         # every call of the history against the (stateless) model of its adapter on its own frame
-        terms = [f"(let tf := {coq_tf(case['frames'][st['frame']])} in {coq_lib_term(st['lib'], o)})"
+        terms = [coq_with_tf(case["frames"][st["frame"]], coq_lib_term(st["lib"], o))
                  for st, o in zip(case["steps"], obs["steps"])]
         terms.append(C.cbool(all(obs["unchanged_later"])))
         return "(" + " && ".join(terms) + ")"
